@@ -592,12 +592,21 @@ class Env:
         return list(reversed(out))
 
 class Ctx:
-    def __init__(self, ret, cont, records):
-        self.ret, self.cont, self.records = ret, cont, records
+    def __init__(self, ret, cont, records, ret_raw=None):
+        self.ret, self.cont, self.records, self.ret_raw = ret, cont, records, ret_raw
     def note(self, v):
         for r in self.records: r.add(v)
-    def sub(self, ret=None, cont=None, record=None):
-        return Ctx(ret or self.ret, cont or self.cont, self.records + ([record] if record is not None else []))
+    def sub(self, ret=None, cont=None, record=None, ret_raw=None):
+        return Ctx(ret or self.ret, cont or self.cont, self.records + ([record] if record is not None else []), ret_raw or self.ret_raw)
+
+def contains_return(node):
+    """a `return` somewhere in the statements of a block (closures excluded)"""
+    if isinstance(node, tuple):
+        if node and node[0] in ("return", "ret_expr"): return True
+        if node and node[0] == "closure": return False
+        return any(contains_return(x) for x in node[1:])
+    if isinstance(node, list): return any(contains_return(x) for x in node)
+    return False
 
 RUST_TYPE_RULES = []          # extended from the tables: (regex over the whitespace-free Rust type, value type)
 def rust_type(txt, selfty):
@@ -943,6 +952,9 @@ class Translator:
         if f[0] == "var": path = f[1]
         elif f[0] == "path": path = "::".join(f[1])
         else: self.bad("call of a computed function")
+        if path == "Some" and len(args) == 1:
+            t, ty = self.ex(args[0], env, B)
+            return ("(Some %s)" % self.lit(t, ty, "usize"), ("opt", "usize" if ty == "lit" else ty))
         ent = self.tb.PATHS.get((path, len(args)))
         if ent is None: self.bad("function `%s/%d` is not in the call table" % (path, len(args)))
         if isinstance(ent, dict) and ent.get("special") == "swap":
@@ -1170,8 +1182,9 @@ class Translator:
         p = strip(place)
         if p[0] in ("var", "field"):
             lt = self.place_type(p, env)
-            Bp = []
+            Bp, saved_n = [], self.n
             rt = self.ex(rhs, env, Bp)[1]
+            self.n = saved_n
             ent = self.tb.ASSIGNOPS.get((op, lt, rt))
             if ent is not None:                              # an overloaded `op=` between non-scalar operands
                 cur, _ = self.ex(p, env, B)
@@ -1265,9 +1278,15 @@ class Translator:
         outer_ctx = self.ctx
         M = self.assigned_in(run, env)
         names = self.state_of(M)
-        st = g_ok(g_raw(names_term(names)))
-        noret = lambda *a: self.bad("`return` inside a `for` loop")
-        self.ctx = outer_ctx.sub(ret=noret, cont=lambda env2: st)
+        early = contains_return(body)
+        if early and (rev or signed): self.bad("`return` inside a reversed / isize `for` loop")
+        st = g_ok(g_raw("(inl %s)" % names_term(names))) if early else g_ok(g_raw(names_term(names)))
+        if early:
+            inner_ret_raw = lambda t: g_ok(g_raw("(inr %s)" % t))
+            self.ctx = outer_ctx.sub(ret=lambda env2, v: inner_ret_raw(self.assemble(env2, v)), cont=lambda env2: st, ret_raw=inner_ret_raw)
+        else:
+            noret = lambda *a: self.bad("`return` inside a `for` loop")
+            self.ctx = outer_ctx.sub(ret=noret, cont=lambda env2: st)
         try:
             bt = self.block(body, env_i, lambda env2, v: st)
         finally:
@@ -1282,6 +1301,11 @@ class Translator:
             fun = ("fun", [(iv.g, None), ("_", "unit")], bt)
         loop = ("app", "for_z" if signed else ("for_rev" if rev else "for_"), [g_raw(lo), g_raw(hi), fun, g_raw(names_term(names))])
         for v in M: self.ctx.note(v)
+        if early:
+            loop = ("app", "for_ret", loop[2])
+            o, r = self.fresh("o"), self.fresh("r")
+            pat_inl = "inl " + (names_term(names) if names else "_")
+            return wrap(B, ("bind", ("v", o), loop, ("match", o, [(pat_inl, rest(env)), ("inr %s" % r, outer_ctx.ret_raw(r))])))
         return wrap(B, mk_bind(names_pat(names), loop, rest(env)))
 
     def while_stmt(self, s, env, rest):
@@ -1307,17 +1331,19 @@ class Translator:
             gparams.append((v.g, gtype(ty)))
             if re.match(r"^&\s*mut\b", pty.strip()) or pty.replace(" ", "").startswith("&mut"): mutparams.append(name)
         rty = rust_type(fn[3], self.selfty) if fn[3] else "unit"
+        m = re.match(r"^Option<(.*)>$", (fn[3] or "").replace(" ", ""))
+        if m: rty = ("opt", rust_type(m.group(1), self.selfty))
         result = spec.get("result")
         if result is None:
             result = list(mutparams) + ([] if rty == "unit" else ["ret"])
         if not result: self.bad("function with no result and no `&mut` parameter")
         params_env = env
-        def ret(env2, v):
+        def assemble(env2, v):
             parts, tys = [], []
             for r in result:
                 if r == "ret":
                     if v is None: self.bad("missing return value")
-                    parts.append(self.lit(v[0], v[1], "usize")); tys.append("usize" if v[1] == "lit" else v[1])
+                    parts.append(self.lit(v[0], v[1], "usize")); tys.append(rty if v[1] == ("opt", "any") else ("usize" if v[1] == "lit" else v[1]))
                 elif r.startswith("ret."):
                     comp = self.tuple_parts.get(v[0]) if v is not None else None
                     if comp is None: self.bad("the returned value is not a literal tuple (result component %s)" % r)
@@ -1325,8 +1351,10 @@ class Translator:
                 else:
                     pv = params_env.lookup(r); parts.append(pv.g); tys.append(pv.ty)
             self.result_type = tys[0] if len(tys) == 1 else ("tuple", tys)
-            return g_ok(g_raw(names_term(parts)))
-        self.ctx = Ctx(ret, lambda env2: self.bad("`continue` outside a loop"), [])
+            return names_term(parts)
+        self.assemble = assemble
+        ret = lambda env2, v: g_ok(g_raw(assemble(env2, v)))
+        self.ctx = Ctx(ret, lambda env2: self.bad("`continue` outside a loop"), [], ret_raw=lambda t: g_ok(g_raw(t)))
         body = fn_body_ast(fn, self.what)
         term = self.block(body, env, lambda env2, v: ret(env2, v))
         return gparams, term, self.result_type
